@@ -19,6 +19,12 @@ def gen_cases(ctx):
             for m in range(5):
                 for s in range(2):
                     cases.append((enc, 10, [d, m, s]))
+        # the CONVENIENCE FORM of adjustment: add_days(d, n, modifier, settlement) = roll(d + n, ..) - n = 0 and small n
+        for d in calgen.interesting_dates(rng, info, lo, hi, 4):
+            for n in (0, rng.choice([1, -1, 2, -3, 7])):
+                for m in range(5):
+                    for s in range(2):
+                        cases.append((enc, 13, [d, n, m, s]))
         # hashed ranges around the holiday clusters: every date x 5 modifiers x 2 flags
         for d in calgen.interesting_dates(rng, info, lo, hi, 3 if th else 2):
             cases.append((enc, 31, [d - 20, 45]))
@@ -37,7 +43,7 @@ def gen_cases(ctx):
 
 
 def nontrivial(enc, op, args, out):
-    if op == 10:
+    if op in (10, 13):
         return len(out) == 2 and out[0] == 0 and out[1] != args[0]   # the roll moved the date
     return op == 31
 
